@@ -804,3 +804,165 @@ Section Leaves.
     destruct t; try apply regs_ok_panic. destruct v; try apply regs_ok_panic. apply id_frag_regs.
   Qed.
 End Leaves.
+
+(* ------------------------------------------------------------------------------------------ *)
+(* L4, none unused (repaired code, fixes/C10-6): every package handed to the namer occurs in the literal *)
+From Coq Require Import Permutation.
+
+Lemma nodupb_NoDup : forall l, nodupb l = true -> NoDup l.
+Proof.
+  induction l as [|x r IH]; intros H; [constructor|]. cbn [nodupb] in H. apply andb_true_iff in H. destruct H as [H1 H2].
+  constructor; [|apply IH, H2]. intros Hin. apply negb_true_iff in H1.
+  assert (E : existsb (bytes_eqb x) r = true) by (apply existsb_exists; exists x; split; [exact Hin|apply bytes_eqb_refl]).
+  congruence.
+Qed.
+
+Lemma Forall2_in_l : forall {A B} (R : A -> B -> Prop) l1 l2 x, Forall2 R l1 l2 -> In x l1 -> exists y, In y l2 /\ R x y.
+Proof.
+  intros A B R l1 l2 x H. induction H as [|a b ra rb Hab _ IH]; intros Hin; [destruct Hin|].
+  destruct Hin as [->|Hin]; [exists b; split; [left; reflexivity|exact Hab]|].
+  destruct (IH Hin) as (y & Hy & Hr). exists y. split; [right; exact Hy|exact Hr].
+Qed.
+
+Section ValueUsed.
+  Context {F : Type}.
+  Variable fzero : F -> bool.
+  Variables ffmt gfmt : VL.fkind -> F -> bytes.
+  Variable fbig : F -> bool.
+  Variable quote : bytes -> bytes.
+
+  Notation goval := (VL.goval F).
+  Notation vlit := (vlit fzero ffmt gfmt fbig quote).
+  Notation value_regs := (value_regs fzero ffmt gfmt fbig quote true).
+  Notation renders_nothing := (renders_nothing fzero).
+  Notation key_text := (key_text fzero ffmt gfmt fbig quote).
+  Notation keys_distinct := (keys_distinct fzero ffmt gfmt fbig quote).
+  Notation ktext := (ktext fzero ffmt gfmt fbig quote).
+  Notation fld := (fld fzero ffmt gfmt fbig quote).
+  Notation kvrow := (kvrow fzero ffmt gfmt fbig quote).
+  Notation regfld := (regfld fzero ffmt gfmt fbig quote true).
+
+  (* the converse of renders_nothing_lempty: the empty text comes from such a struct only *)
+  Lemma lempty_renders_nothing : forall v t local, vlit local true t v = Ok VL.LEmpty -> renders_nothing t v = true.
+  Proof.
+    induction v as [b|z|x|s| |v IH|n l0 IH|l0 IH|n m IH|vs IH] using Gengo.Proofs.ValueLit.goval_ind';
+      intros t local H;
+      try (destruct (Gengo.Proofs.ValueLit.lempty_shape fzero ffmt gfmt fbig quote local true true t _ H) as [_ [vs' E]]; discriminate).
+    rewrite (vlit_struct_eq fzero ffmt gfmt fbig quote) in H. rewrite (rn_struct_eq fzero).
+    destruct (VL.under t) as [| | | | | | | | |fs]; try discriminate.
+    destruct (VL.map2r (fld local) fs vs) as [outs| |] eqn:M; cbn [bind] in H; try discriminate.
+    destruct (is_nil (VL.somes outs)) eqn:N; cbn [andb] in H; [|discriminate]. clear H.
+    revert fs outs M N. induction IH as [|x r Hx _ IHr]; intros fs outs M N.
+    - destruct fs; reflexivity.
+    - destruct fs as [|f fr]; [reflexivity|]. cbn [VL.map2r] in M.
+      destruct (fld local f x) as [o| |] eqn:Ef; try discriminate.
+      destruct (VL.map2r (fld local) fr r) as [os| |] eqn:Mr; try discriminate. inversion M; subst.
+      destruct o as [e|]; [cbn in N; discriminate|]. cbn [VL.somes] in N.
+      cbn [all2]. rewrite (IHr fr os Mr N), andb_true_r.
+      unfold RenderStackLeaves.fld in Ef. destruct (VL.is_exported (fst f)); cbn [andb negb orb] in *; [|reflexivity].
+      destruct (VL.is_empty fzero x); cbn [andb negb orb] in *; [reflexivity|].
+      destruct (vlit local true (snd f) x) as [lx| |] eqn:El; cbn [bind] in Ef; try discriminate.
+      destruct lx; cbn [VL.is_lempty] in Ef; try discriminate. exact (Hx _ _ El).
+  Qed.
+
+  Lemma value_regs_used : forall v local sub t l,
+    vlit local sub t v = Ok l -> keys_distinct local t v = true -> incl (value_regs sub t v) (lit_pkgs l).
+  Proof.
+    induction v as [b|z|x|s| |v IH|n l0 IH|l0 IH|n m IH|vs IH] using Gengo.Proofs.ValueLit.goval_ind';
+      intros local sub t l H K; try (intros p []).
+    - rewrite (vlit_ptr_eq fzero ffmt gfmt fbig quote) in H. cbn [RenderStack.value_regs RenderStack.keys_distinct] in *.
+      destruct (VL.under t) as [| | | | |e| | | |]; try (intros p []).
+      destruct (VL.basic_kind true (VL.under e)).
+      + destruct (vlit local sub e v) as [a| |] eqn:E; cbn [bind] in H; try discriminate. inversion H; subst.
+        cbn [lit_pkgs]. apply incl_app; [apply incl_appl, incl_refl|apply incl_appr, (IH _ _ _ _ E K)].
+      + destruct (vlit local false e v) as [a| |] eqn:E; cbn [bind] in H; try discriminate. inversion H; subst.
+        cbn [lit_pkgs]. exact (IH _ _ _ _ E K).
+    - rewrite (vlit_slice_eq fzero ffmt gfmt fbig quote) in H. cbn [RenderStack.value_regs RenderStack.keys_distinct] in *.
+      destruct (VL.under t) as [| | | | | |e| | |]; try (intros p []).
+      destruct (VL.mapr (vlit local false e) l0) as [ls| |] eqn:M; cbn [bind] in H; try discriminate. inversion H; subst.
+      rewrite lit_pkgs_composite_eq. apply incl_app; [apply incl_appl, incl_refl|apply incl_appr].
+      apply mapr_inv in M. clear H. revert K. induction M as [|x y rx ry Hxy _ IHm]; intros K; [intros p []|].
+      inversion IH as [|? ? Hx Hr]; subst. cbn [forallb] in K. apply andb_true_iff in K. destruct K as [K1 K2].
+      cbn [map flat_map fst snd lit_pkgs app].
+      apply incl_app; [apply incl_appl, (Hx _ _ _ _ Hxy K1)|apply incl_appr, (IHm Hr K2)].
+    - rewrite (vlit_array_eq fzero ffmt gfmt fbig quote) in H. cbn [RenderStack.value_regs RenderStack.keys_distinct] in *.
+      destruct (VL.under t) as [| | | | | | |k e| |]; try (intros p []).
+      destruct (VL.mapr (vlit local false e) l0) as [ls| |] eqn:M; cbn [bind] in H; try discriminate. inversion H; subst.
+      rewrite lit_pkgs_composite_eq. apply incl_app; [apply incl_appl, incl_refl|apply incl_appr].
+      apply mapr_inv in M. clear H. revert K. induction M as [|x y rx ry Hxy _ IHm]; intros K; [intros p []|].
+      inversion IH as [|? ? Hx Hr]; subst. cbn [forallb] in K. apply andb_true_iff in K. destruct K as [K1 K2].
+      cbn [map flat_map fst snd lit_pkgs app].
+      apply incl_app; [apply incl_appl, (Hx _ _ _ _ Hxy K1)|apply incl_appr, (IHm Hr K2)].
+    - rewrite (vlit_map_eq fzero ffmt gfmt fbig quote) in H. rewrite (regs_map_eq fzero ffmt gfmt fbig quote).
+      cbn [RenderStack.keys_distinct] in K.
+      destruct (VL.under t) as [| | | | | | | |kt et|]; try (intros p []).
+      destruct (VL.mapr (kvrow local kt et) m) as [tbl| |] eqn:M; cbn [bind] in H; try discriminate. inversion H; subst. clear H.
+      apply andb_true_iff in K. destruct K as [KN KF]. rewrite forallb_forall in KF. rewrite Forall_forall in IH.
+      rewrite lit_pkgs_composite_eq. apply incl_app; [apply incl_appl, incl_refl|apply incl_appr].
+      apply mapr_inv in M.
+      (* the key texts of the table are those of the side condition *)
+      assert (KT : map fst tbl = map (fun kv => ktext local kt (fst kv)) m).
+      { clear - M. induction M as [|kv row rm rt Hrow _ IHm]; [reflexivity|]. cbn [map]. rewrite IHm. f_equal.
+        unfold RenderStackLeaves.kvrow in Hrow. unfold RenderStack.ktext.
+        destruct (vlit local false kt (fst kv)) as [kl| |]; cbn [bind] in Hrow; try discriminate.
+        destruct (vlit local false et (snd kv)) as [vl| |]; cbn [bind] in Hrow; try discriminate.
+        inversion Hrow. reflexivity. }
+      assert (ND : NoDup (map fst tbl)) by (rewrite KT; apply nodupb_NoDup, KN).
+      set (entries := map (fun k => match VL.assoc_last k tbl with Some e => e | None => (VL.LOther, VL.LOther) end)
+                          (VL.isort (map fst tbl))).
+      assert (Ent : forall k e, In (k, e) tbl -> In e entries).
+      { intros k e Hin. unfold entries. apply in_map_iff. exists k. split.
+        - rewrite (VLB.assoc_last_in k e tbl ND Hin). reflexivity.
+        - apply (Permutation_in _ (VLB.isort_perm (map fst tbl))). apply in_map_iff. exists (k, e). split; [reflexivity|exact Hin]. }
+      (* every entry of the map: its registrations are in its row *)
+      assert (Row : forall kv, In kv m ->
+                forall p, In p (value_regs false kt (fst kv)) \/ In p (value_regs false et (snd kv)) ->
+                In p (flat_map (fun e => lit_pkgs (fst e) ++ lit_pkgs (snd e)) entries)).
+      { intros kv Hkv p Hp. destruct (Forall2_in_l _ _ _ _ M Hkv) as (row & Hrow & R).
+        unfold RenderStackLeaves.kvrow in R.
+        destruct (vlit local false kt (fst kv)) as [kl| |] eqn:Ek; cbn [bind] in R; try discriminate.
+        destruct (vlit local false et (snd kv)) as [vl| |] eqn:Ev; cbn [bind] in R; try discriminate.
+        inversion R; subst row. clear R.
+        specialize (KF kv Hkv). apply andb_true_iff in KF. destruct KF as [K1 K2].
+        destruct (IH kv Hkv) as [Hk Hv].
+        apply in_flat_map. exists (kl, vl). split; [exact (Ent _ _ Hrow)|]. cbn [fst snd]. apply in_app_iff.
+        destruct Hp as [Hp|Hp]; [left; exact (Hk _ _ _ _ Ek K1 p Hp)|right; exact (Hv _ _ _ _ Ev K2 p Hp)]. }
+      intros p Hp. apply in_app_iff in Hp. destruct Hp as [Hp|Hp].
+      + apply in_flat_map in Hp. destruct Hp as (kv & Hkv & Hp). exact (Row kv Hkv p (or_introl Hp)).
+      + apply in_concat in Hp. destruct Hp as (x & Hx & Hp). apply in_map_iff in Hx. destruct Hx as (y & <- & Hy).
+        apply (proj1 (in_sort_kv _ _)) in Hy. apply in_map_iff in Hy. destruct Hy as (kv & <- & Hkv).
+        exact (Row kv Hkv p (or_intror Hp)).
+    - rewrite (vlit_struct_eq fzero ffmt gfmt fbig quote) in H. rewrite (regs_struct_eq fzero ffmt gfmt fbig quote).
+      cbn [RenderStack.keys_distinct] in K.
+      destruct (VL.under t) as [| | | | | | | | |fs] eqn:U; try (intros p []).
+      destruct (VL.map2r (fld local) fs vs) as [outs| |] eqn:M; cbn [bind] in H; try discriminate.
+      destruct (true && sub && renders_nothing t (VL.VStruct vs)) eqn:C; [intros p []|].
+      destruct (sub && is_nil (VL.somes outs)) eqn:SE.
+      + (* the empty text: then the struct renders nothing and the condition C would hold *)
+        exfalso. apply andb_true_iff in SE. destruct SE as [-> N]. inversion H; subst.
+        assert (E : vlit local true t (VL.VStruct vs) = Ok VL.LEmpty).
+        { rewrite (vlit_struct_eq fzero ffmt gfmt fbig quote), U, M. cbn [bind]. rewrite N. reflexivity. }
+        rewrite (lempty_renders_nothing _ _ _ E) in C. discriminate.
+      + inversion H; subst. rewrite lit_pkgs_composite_eq.
+        apply incl_app; [apply incl_appl, incl_refl|apply incl_appr].
+        clear H C U SE. revert fs outs M K. induction IH as [|x r Hx _ IHr]; intros fs outs M K.
+        * destruct fs; intros q [].
+        * destruct fs as [|f fr]; [intros q []|]. cbn [VL.map2r] in M. cbn [all2] in K.
+          apply andb_true_iff in K. destruct K as [K1 K2].
+          destruct (fld local f x) as [o| |] eqn:Ef; try discriminate.
+          destruct (VL.map2r (fld local) fr r) as [os| |] eqn:Mr; try discriminate. inversion M; subst.
+          cbn [cat2]. specialize (IHr fr os Mr K2).
+          unfold RenderStackLeaves.fld in Ef. unfold RenderStackLeaves.regfld.
+          destruct (VL.is_exported (fst f) && negb (VL.is_empty fzero x)).
+          -- destruct (vlit local true (snd f) x) as [lx| |] eqn:El; cbn [bind] in Ef; try discriminate.
+             destruct (VL.is_lempty lx) eqn:Le; inversion Ef; subst; cbn [VL.somes flat_map].
+             ++ (* the field renders nothing: with the repair it registers nothing *)
+                destruct lx; try discriminate.
+                pose proof (lempty_renders_nothing _ _ _ El) as RN.
+                destruct (Gengo.Proofs.ValueLit.lempty_shape fzero ffmt gfmt fbig quote local true true _ _ El) as [_ [vs' ->]].
+                rewrite (regs_struct_eq fzero ffmt gfmt fbig quote).
+                destruct (VL.under (snd f)); try exact IHr. rewrite RN. cbn [andb]. exact IHr.
+             ++ cbn [fst snd lit_pkgs app]. apply incl_app; [apply incl_appl, (Hx _ _ _ _ El K1)|apply incl_appr, IHr].
+          -- inversion Ef; subst. cbn [VL.somes app]. exact IHr.
+  Qed.
+End ValueUsed.
